@@ -15,6 +15,8 @@ GREEDY_PATTERNS = [
     ("S: a*! a*", 1), ("S: a+! a*", 1), ("S: a?! a*", 1), ("S: a*! b? a*", 0), ("S: (a | b c)*! a*", 1), ("S: a*![comma] a*", 0),
     ("S: A*! a*;\nA: a | a a", 0), ("S: a+! a+", 0), ("S: b a*! a* b?", 2), ("S: (a b?)*! b*", 0), ("S: a* a*!", 2), ("S: a+ a*!", 2),
     ("S: b*! b* a", 1), ("S: a b?! b*", 2),
+    # greedy together with a separator (round-4 seeded change C13-g: the greedy flag was lost when the reference was cloned for its separator)
+    ("S: a*![comma] a*[comma]", 1), ("S: a+![comma] R?;\nR: comma a+[comma]", 1), ("S: (a b)*![comma] (a b)*[comma]", 1), ("S: a+![comma] a*[comma]", 1),
 ]
 
 
@@ -146,6 +148,9 @@ def worker(job):
     words += sugar.sentences(rules, rng, n=job["nsent"], budget=8)
     if job["greedy"]:
         words += [["a"] * k for k in range(4, 7)]
+        if "comma" in alpha:
+            words += [w for w in ([["a", ",", "a"], ["a", ",", "a", ",", "a"], ["a", "b", ",", "a", "b"], ["a", ",", "a", ",", "a", ",", "a"], ["a", "b", ",", "a", "b", ",", "a", "b"]])
+                      if set(w) <= {sugar.TERMS[t] for t in alpha}]
     seen = set()
     tname = {v: k for k, v in sugar.TERMS.items()}
     for toks in words:
